@@ -45,6 +45,9 @@ func getStructDesc(rv reflect.Value) *structDesc {
 var errType = errors.New("not pointer to struct")
 
 func createStructDesc(rv reflect.Value) (*structDesc, error) {
+	if !rv.IsValid() { // reflect.ValueOf(nil): rv.Type() would panic
+		return nil, errType
+	}
 	rt := rv.Type()
 	if rt.Kind() != reflect.Struct {
 		if rt.Kind() != reflect.Ptr {
